@@ -557,6 +557,10 @@ def listgrader_dims():
         V(L(lambda: [m.ListGrader(subgraders=sg()), sg()], '[LG(SG), SG]'), True, FREE),
         V(L(lambda: [sg(), m.ListGrader(subgraders=sg())], '[SG, LG(SG)]'), True, FREE),
         V(T.SLG_comma, True, FREE),
+        # single-box list graders are not ListGraders: they cannot take a group of several inputs
+        V(L(lambda: [m.SingleListGrader(subgrader=sg()), sg()], '[SLG(SG), SG]'), True, FREE),
+        V(L(lambda: [sg(), m.SingleListGrader(subgrader=sg())], '[SG, SLG(SG)]'), True, FREE),
+        V(L(lambda: [m.IntervalGrader(), sg()], '[IntervalGrader, SG]'), True, FREE),
     ]
     answers = [V(a, True, ANSWERS) for a in (
         [], ['a', 'b'], ['a', 'b', 'c'], (['a', 'b'], ['c', 'd']), (['a', 'b'], ['c']),
